@@ -322,7 +322,11 @@ type PCS struct {
 	// error, later ones are answered — a service that succeeds only the second time.
 	FailFirst map[string]int
 	seen      map[string]int
-	mu        sync.Mutex
+	// Editions: the n-th request of a route (since ResetTransient) is answered with the n-th edition listed
+	// here, the last one from then on — a cache in front of the service that serves an old edition first.
+	Editions map[string][]*Endpoint
+	edSeen   map[string]int
+	mu       sync.Mutex
 }
 
 // ErrTransient is what a request hit by FailFirst returns.
@@ -332,6 +336,7 @@ var ErrTransient = errors.New("simulated PCS: connection reset by peer (transien
 func (p *PCS) ResetTransient() {
 	p.mu.Lock()
 	p.seen = nil
+	p.edSeen = nil
 	p.mu.Unlock()
 }
 
@@ -409,6 +414,17 @@ func (p *PCS) Get(raw string) (map[string][]string, []byte, error) {
 		}
 		p.seen[req.Route]++
 		transient = p.seen[req.Route] <= p.FailFirst[req.Route]
+	}
+	if eds := p.Editions[req.Route]; len(eds) > 0 {
+		if p.edSeen == nil {
+			p.edSeen = map[string]int{}
+		}
+		i := p.edSeen[req.Route]
+		p.edSeen[req.Route]++
+		if i >= len(eds) {
+			i = len(eds) - 1
+		}
+		ep = eds[i]
 	}
 	p.mu.Unlock()
 	if p.OnFetch != nil {
